@@ -747,12 +747,28 @@ def run(ctx):
         outs = ctx.run_harness(binary, [{"op": "scratch_roundtrip", "seed": i} for i in range(6)]) or []
         valid_pks = [o["pk"] for o in outs if o and "pk" in o]
     cases = ctx.corpus() + ([] if ctx.replay else gen(ctx, valid_pks))
-    # other checks may have regenerated gen/Consts.v while cargo was waiting for its lock: make sure the model's
-    # .vo files the case files import are consistent again (no-op otherwise)
-    ctx.regen_consts()
-    ctx.coq_make(["props/C17.v"])
-    ctx.pipeline(cases, binary, oracle, model_term, IMPORTS, nontrivial=nontrivial, show=show, shard_size=120,
+    pipeline_retry(ctx, "props/C17.v", cases, binary, oracle, model_term, IMPORTS, nontrivial=nontrivial, show=show, shard_size=120,
                  relation="each repository parser == its transcription in model/Parsers.v / BootCache.v (outcome Ok/Err/Panic, value, error kind)")
+
+
+
+def pipeline_retry(ctx, target, *args, **kw):
+    """ctx.pipeline, repeated (at most twice) when the model evaluation was hit by another check regenerating
+    gen/Consts.v in between ("inconsistent assumptions over library V.gen.Consts": an artefact of checks of other
+    properties running at the same time, not a property of this one)"""
+    import copy
+    for attempt in range(3):
+        n_tb = len(ctx.tie_breaks)
+        snap = (copy.deepcopy(ctx.cov), list(ctx.impl_viol), set(ctx._nontrivial))
+        ctx.regen_consts()
+        ctx.coq_make([target])
+        ctx.pipeline(*args, **kw)
+        hit = any(k == "model-eval" and "inconsistent assumptions" in str(d) for k, _, d in ctx.tie_breaks[n_tb:])
+        if not hit or attempt == 2:
+            return
+        del ctx.tie_breaks[n_tb:]
+        ctx.cov, ctx.impl_viol, ctx._nontrivial = snap[0], snap[1], snap[2]
+        ctx.log("model evaluation raced with a regeneration of gen/Consts.v by another check; repeating")
 
 
 def refresh_lock():
